@@ -91,6 +91,13 @@ def parse_diagnostics(stderr):
     return out
 
 
+def unit_edition(text):
+    """a unit may ask for the crate's own edition (2018) with a line `// verif-edition: 2018` (the 2021 prelude's TryFrom collides
+    with the model trait in the sparse unit; 2018's assert!-with-message lowers to begin_panic, which Verus rejects, elsewhere)"""
+    m = re.search(r'^// verif-edition: (\d{4})\s*$', text, re.M)
+    return ['--edition', m.group(1)] if m else []
+
+
 def run_verus_unit(name, tier, seed, extra_args=()):
     """weave + verify one unit; returns result dict"""
     t0 = time.time()
@@ -122,7 +129,7 @@ def run_verus_unit(name, tier, seed, extra_args=()):
         except Exception:
             raw = None
     if raw is None:
-        cmd = ['verus', path, '--output-json', '--time', '--multiple-errors', '20', '--num-threads', '4'] + list(extra_args)
+        cmd = ['verus', path] + unit_edition(text) + ['--output-json', '--time', '--multiple-errors', '20', '--num-threads', '4'] + list(extra_args)
         try:
             p = sh(cmd, cwd=BUILD, timeout=int(os.environ.get('VERIF_UNIT_TIMEOUT', '1500')))
             raw = {'rc': p.returncode, 'stdout': p.stdout, 'stderr': p.stderr, 'cmd': ' '.join(cmd)}
@@ -271,7 +278,7 @@ def run_canary(name, res):
         return json.load(open(cpath))
     path = os.path.join(BUILD, name + '_canary.rs')
     open(path, 'w').write(ctext)
-    p = sh(['verus', path, '--multiple-errors', '2', '--num-threads', '4'], cwd=BUILD)
+    p = sh(['verus', path] + unit_edition(ctext) + ['--multiple-errors', '2', '--num-threads', '4'], cwd=BUILD)
     if 'verification results::' not in p.stdout + p.stderr:
         return {'unit': name, 'checked': 0, 'vacuous': ['<canary variant did not run: %s>' % (p.stderr[-300:])]}
     diags = parse_diagnostics(p.stderr)
